@@ -92,6 +92,8 @@ def alphabet(tier, expanded, extent_a):
             for k in range(len(ELLB)):
                 ev.append(["hell", k, 0, None])
                 ev.append(["hell", k, 1, True])
+            # the whole dataset replaced by one without any variable
+            ev.append(["replace_empty"])
             # (the same dict before and after the dataset grew along `a`)
             for r in (2, 3):
                 ev.append(["seq", [["hell", 0, 0, None],
@@ -303,6 +305,16 @@ class World:
                             % (ev, want_raise, raised)))
             if raised is None and merged is not None:
                 m.disk = merged
+        elif kind == "replace_empty":
+            import xarray as xr
+
+            try:
+                self.h.save_full_ds(xr.Dataset())
+            except Exception as e:
+                vio.append(("raised:" + type(e).__name__,
+                            "save_full_ds(empty dataset) raised %r" % e))
+                return vio
+            m.mem, m.disk = {}, {}
         elif kind == "expand":
             try:
                 self.h.expand_dims("c", 5)
